@@ -19,7 +19,7 @@ ASSUME = [
 def _compute(tier, seed):
     r = tlc.run('ErrorModel', 'ErrorModel_%s.cfg' % tier)
     from . import replay_errormodel
-    reps = 3 if tier == 'quick' else 10
+    reps = 3 if tier == "quick" else 400
     results = pmap(replay_errormodel.replay_case, [(rec, seed, reps) for rec in r.records])
     return dict(run=r.summary(), records=r.records, results=results)
 
